@@ -83,12 +83,12 @@ func (p *ifStmt) Then(cb *CodeBuilder, src ...ast.Node) {
 	if !types.AssignableTo(cond.Type, types.Typ[types.Bool]) {
 		cb.panicCodeError(getPos(src), getEnd(src), "non-boolean condition in if statement")
 	}
-	p.cond = cond.Val
+	p.cond = checkParenCtrlExpr(cond.Val)
 	switch stmts := cb.clearBlockStmt(); len(stmts) {
 	case 0:
 		// nothing to do
 	case 1:
-		p.init = stmts[0]
+		p.init = checkParenCtrlStmt(stmts[0])
 	default:
 		panic("if statement has too many init statements")
 	}
@@ -159,7 +159,7 @@ func (p *switchStmt) Then(cb *CodeBuilder, src ...ast.Node) {
 	case 0:
 		// nothing to do
 	case 1:
-		p.init = stmts[0]
+		p.init = checkParenCtrlStmt(stmts[0])
 	default:
 		panic("switch statement has too many init statements")
 	}
@@ -311,7 +311,7 @@ func (p *typeSwitchStmt) TypeAssertThen(cb *CodeBuilder) {
 	case 0:
 		// nothing to do
 	case 1:
-		p.init = stmts[0]
+		p.init = checkParenCtrlStmt(stmts[0])
 	default:
 		panic("TODO: type switch statement has too many init statements")
 	}
@@ -320,7 +320,7 @@ func (p *typeSwitchStmt) TypeAssertThen(cb *CodeBuilder) {
 	if !ok {
 		panic("TODO: can't type assert on non interface expr")
 	}
-	p.x, p.xSrc, p.xType, p.xTyp = x.Val, x.Src, xType, x.Type
+	p.x, p.xSrc, p.xType, p.xTyp = checkParenCtrlExpr(x.Val), x.Src, xType, x.Type
 }
 
 func (p *typeSwitchStmt) TypeCase(cb *CodeBuilder, src ...ast.Node) {
@@ -430,13 +430,13 @@ func (p *forStmt) Then(cb *CodeBuilder, src ...ast.Node) {
 		if !types.AssignableTo(cond.Type, types.Typ[types.Bool]) {
 			panic("TODO: for statement condition is not a boolean expr")
 		}
-		p.cond = cond.Val
+		p.cond = checkParenCtrlExpr(cond.Val)
 	}
 	switch stmts := cb.clearBlockStmt(); len(stmts) {
 	case 0:
 		// nothing to do
 	case 1:
-		p.init = stmts[0]
+		p.init = checkParenCtrlStmt(stmts[0])
 	default:
 		panic("TODO: for condition has too many init statements")
 	}
@@ -456,7 +456,7 @@ func (p *forStmt) End(cb *CodeBuilder, src ast.Node) {
 		if len(stmts) != 1 {
 			panic("TODO: too many post statements")
 		}
-		post = stmts[0]
+		post = checkParenCtrlStmt(stmts[0])
 	} else { // no post
 		stmts, flows := cb.endBlockStmt(&p.old2)
 		cb.current.flows |= (flows &^ (flowFlagBreak | flowFlagContinue))
@@ -541,7 +541,7 @@ func (p *forRangeStmt) RangeAssignThen(cb *CodeBuilder, pos token.Pos) {
 			Key:   ident(names[0]),
 			Value: val,
 			Tok:   token.DEFINE,
-			X:     x.Val,
+			X:     checkParenCtrlExpr(x.Val),
 		}
 	} else { // for k, v = range XXX {
 		var key, val, x internal.Elem
@@ -569,7 +569,7 @@ func (p *forRangeStmt) RangeAssignThen(cb *CodeBuilder, pos token.Pos) {
 		p.stmt = &target.RangeStmt{
 			Key:   key.Val,
 			Value: val.Val,
-			X:     x.Val,
+			X:     checkParenCtrlExpr(x.Val),
 		}
 		if n > 1 {
 			p.stmt.Tok = token.ASSIGN
